@@ -97,7 +97,8 @@ def run(ctx):
                     and any(n.stmt is x for b in h.body for x in ast.walk(b))]
             okret = False
             for r in rets:
-                gs = [(norm_stmt(e), pol) for e, pol, _ in rcfg.guards(r)]
+                gs = [(norm_stmt(a_), t_) for e, pol, _ in rcfg.guards(r)
+                      for a_, t_ in decompose_guard(e, pol)]
                 if any("lexists" in g and pol is True for g, pol in gs):
                     zc = [n for c in calls_in(rlm.node) if isinstance(c.func, ast.Attribute)
                           and c.func.attr == "_raise_if_zombie" for n in rcfg.owners(c)]
